@@ -26,7 +26,11 @@ m = dict(
                baseline_off_cmd="cd /repo && /venv/bin/python -m pytest -ra -q -p no:cacheprovider --timeout=900 --continue-on-collection-errors",
                source_commits=[], add_only=True),
     engines=[dict(name="tlc", path="/verif/engine/tlc.py", serves_properties=sorted(registry.CHECKS),
-                  kind_free_text="TLC 1.8 on the TLA+ library in /verif/specs: exhaustive model checking (M1), behaviour generation (M2), batch trace validation of recorded executions (M3), slice evaluation (M4)")],
+                  kind_free_text="TLC 1.8 on the TLA+ library in /verif/specs: exhaustive model checking (M1), behaviour generation (M2), batch trace validation of recorded executions (M3), slice evaluation (M4)"),
+             dict(name="dsched", path="/verif/engine/dsched.py", serves_properties=["C11", "C12"],
+                  kind_free_text="deterministic scheduler for real Python threads: lock/event/thread proxies injected at run time (engine/instrument.py), pre-emption at lock, write, clock, line and opcode points, DFS with pre-emption bound / random / PCT / replay strategies; every execution is recorded and judged by TLC"),
+             dict(name="lexers", path="/verif/engine/termlex.py", serves_properties=["C03", "C10", "C11", "C15", "C19"],
+                  kind_free_text="lexical projections of byte streams into the vocabularies of Screen.tla / Sgr.tla / Record.tla (engine/termlex.py, sgrlex.py, ansilex.py); trusted, purely lexical")],
     checks=checks,
     notes="Specifications: /verif/specs/*.tla.  Drivers: /verif/drivers/cNN.py.  Known findings: /verif/known_findings.json.  Seeded mutants: /verif/seeded/.  See DESIGN.md.",
     not_applicable=na)
